@@ -110,6 +110,9 @@ fn parse_groups(
     let mut num_groups = 0; // the total number of parsed groups
     while num_groups < header_num_groups as usize {
         // Read group TLV
+        if data.len() < 6 || data.len() - 6 < LittleEndian::read_u32(&data[2..]) as usize {
+            return Err(DatabaseIntegrityError::IncompleteKDBGroup);
+        }
         let field_type = LittleEndian::read_u16(&data[0..]);
         let field_size = LittleEndian::read_u32(&data[2..]);
         let field_value = &data[6..6 + field_size as usize];
@@ -197,6 +200,9 @@ fn parse_entries(
     let mut num_entries = 0;
     while num_entries < header_num_entries {
         // Read entry TLV
+        if data.len() < 6 || data.len() - 6 < LittleEndian::read_u32(&data[2..]) as usize {
+            return Err(DatabaseIntegrityError::IncompleteKDBEntry);
+        }
         let field_type = LittleEndian::read_u16(&data[0..]);
         let field_size = LittleEndian::read_u32(&data[2..]);
         let field_value = &data[6..6 + field_size as usize];
